@@ -39,6 +39,66 @@ def rand_contender(rng, focus, maxr):
     return (kind, rounds)
 
 
+def merges(a, b):
+    """all interleavings of sequences a and b (as lists)"""
+    if not a: return [list(b)]
+    if not b: return [list(a)]
+    return [[a[0]] + m for m in merges(a[1:], b)] + [[b[0]] + m for m in merges(a, b[1:])]
+
+
+def directed(rng, tier, tag):
+    """schedules aimed at the windows of the protocol.  While every thread is enabled the choice k selects
+    thread k, so a prefix can be written as a list of thread ids; afterwards a random tail."""
+    out = []
+    def tail(n, w): return [rng.randint(0, w) for _ in range(n)]
+    def add(cont, pre, w):
+        out.append(mk("%sd%d" % (tag, len(out)), cont, list(pre) + tail(rng.choice([0, 6, 14]), w)))
+    rels = [0, 1, 2]
+    # (b) a release overlapping a request in flight: holder H = thread 0, requester W = thread 1.
+    #     H: step, try(ok) | cs, unlock, (bq)      W: step, try(fails), publish, m_pub tail
+    for kh in (0, 1):
+        for kw in (0, 1):
+            for rh in rels:
+                for m in merges([0, 0, 0], [1, 1, 1]):
+                    cont = [(kh, [(0, rh), (0, rng.choice(rels))]), (kw, [(0, rng.choice(rels))])]
+                    add(cont, [0, 0, 1, 1] + m, 1)
+    # (c) try_lock racing unlock: T = thread 1 tries twice while H = thread 0 leaves the critical section
+    for kh in (0, 1):
+        for kt in (0, 1):
+            for rh in rels:
+                for m in merges([0, 0], [1, 1, 1, 1]):
+                    cont = [(kh, [(0, rh), (1, rng.choice(rels))]), (kt, [(1, rng.choice(rels)), (1, rng.choice(rels)), (0, 0)])]
+                    add(cont, [0, 0, 1] + m, 1)
+    # (a) two late arrivals between an owner's publishing CAS and its build_queue: threads X=0, H=1, A=2, B=3.
+    #     H takes the mutex, X fails its try, H releases (mutex free), X publishes on null (now at m_pub),
+    #     A and B fail their try and publish on top of X's request, then X runs m_pub and build_queue(X).
+    arr = [[2, 2, 2, 3, 3, 3], [3, 3, 3, 2, 2, 2], [2, 3, 2, 3, 2, 3], [2, 2, 3, 3, 3, 2], [3, 2, 2, 3, 3, 2]]
+    combos = [(kx, kh, ka, kb) for kx in (0, 1) for kh in (0, 1) for ka in (0, 1) for kb in (0, 1)]
+    for (kx, kh, ka, kb) in combos:
+        for rh in rels:
+            for a in arr:
+                if tier == "quick" and rng.random() < 0.6: continue
+                cont = [(kx, [(0, rng.choice(rels)), (0, rng.choice(rels))]), (kh, [(0, rh), (rng.choice([0, 1]), rng.choice(rels))]),
+                        (ka, [(0, rng.choice(rels))]), (kb, [(0, rng.choice(rels))])]
+                cut = rng.choice([0, 3, 6])       # X's m_pub step before / between / after the arrivals
+                pre = [1, 1, 0, 0, 1, 1, 0] + a[:cut] + [0] + a[cut:] + [0]
+                add(cont, pre, 3)
+    # (a') 4 parties on 3 threads: coroutine 0 releases to coroutine 1 which then runs on thread 0 while thread 1 is
+    #      still in the tail of await_suspend; plain thread 2 and coroutine 3-less variant arrive late
+    for rh in rels:
+        for m in merges([0, 0, 0, 0], [2, 2, 2]):
+            cont = [(0, [(0, rh), (0, rng.choice(rels))]), (0, [(0, rng.choice(rels)), (0, rng.choice(rels))]), (1, [(0, rng.choice(rels)), (1, 0)])]
+            add(cont, [0, 0, 1, 1, 1] + m, 2)
+    # (d) the same schedule under every release flavour / (e) every mix of blocking and coroutine contenders
+    base = [rng.randint(0, 3) for _ in range(40)]
+    for kinds in [(0, 0, 0), (0, 1, 0), (1, 0, 1), (1, 1, 0), (1, 1, 1), (0, 0, 1)]:
+        for r1 in rels:
+            for r2 in rels:
+                cont = [(kinds[0], [(0, r1), (0, r2)]), (kinds[1], [(0, r2), (0, r1)]), (kinds[2], [(0, r1), (1, r2)])]
+                add(cont, base, 2)
+    return out
+
+
 def gen(seed, tier, focus):
     rng = random.Random(seed * 1000003 + (707 if focus == "mutex" else 808))
     n = 450 if tier == "quick" else 5000
@@ -55,6 +115,7 @@ def gen(seed, tier, focus):
     for j, b in enumerate(bad):
         ops = b + [[1, 0, 0, 2], [1, 1, 0, 0]] + [[9] + [rng.randint(0, 3) for _ in range(12)]]
         cases.append(Case("mx", "%sbad%d" % (focus[0], j), ops))
+    cases += directed(rng, tier, focus[0])
     if tier != "quick":
         # systematic: every schedule prefix of length 13 over 2 choices (2 contenders x 2 rounds) and
         # of length 9 over 3 choices (3 contenders x 1 round), then lowest-thread-first
